@@ -622,7 +622,8 @@ func (o *Char) UnmarshalBinary(data []byte) error {
 func (o Float) MarshalBinary() ([]byte, error) {
 	buf := make([]byte, 2+binary.MaxVarintLen64)
 	buf[0] = binFloatV1
-	if o == 0 {
+	// only +0 has all bits zero, -0 must keep its sign bit
+	if math.Float64bits(float64(o)) == 0 {
 		buf[1] = 0
 		return buf[:2], nil
 	}
